@@ -10,6 +10,9 @@ from __future__ import annotations
 from .types import Gen
 from .values import VGen, constable
 
+#: free text: also texts that a tidy-up (strip, dedent, cleandoc, whitespace collapsing) would change
+DESCS = ["", "does things", "λ", "  two leading spaces\n    and an indented line\n", "\ttab first", "\n\nblank lines first",
+         "trailing \n\n", "a  b"]
 NAMES = ["my.ext", "a", "verif.gen", "ünï.ext", "x.y.z"]
 VERSIONS = ["0.1.0", "1.2.3", "10.0.7", "1.0.0-alpha", "1.0.0-rc.1+build.5", "2.1.0+exp.sha.5114f85", "0.0.0"]
 REQS = ["prelude", "arithmetic.int.types", "other.ext", "ünï"]
@@ -29,11 +32,11 @@ def gen_extension(r, name=None, small=False):
         df = dict(g2.typedef())
         df["name"] = f"n{i}" if shared else f"T{i}"
         df["ext"] = name
-        df["description"] = r.choice(["", "a type", "ünï ✓"])
+        df["description"] = r.choice(["", "a type", "ünï ✓", " padded type \n", "\n  indented\n    more"])
         e["types"].append(df)
     for i in range(r.randint(0, 2 if small else 4)):
         k = r.choice(["mono", "poly", "binary", "own-type"])
-        op = {"name": f"n{i}" if shared else f"op{i}" if r.random() < 0.8 else f"Op.{i}", "description": r.choice(["", "does things", "λ"]),
+        op = {"name": f"n{i}" if shared else f"op{i}" if r.random() < 0.8 else f"Op.{i}", "description": r.choice(DESCS),
               "misc": {}, "params": [], "body": None, "binary": False}
         if r.random() < 0.4:
             op["misc"] = {"k": r.choice([1, "v", [1, {"a": None}], 2.5, True])}
